@@ -334,10 +334,44 @@ func checkC15(c *Ctx) *core.Result {
 				*calls = append(*calls, x)
 				return true
 			}
+			// a small helper that returns the attribute predicate's answer: classifyAttrName(h5)
+			if h := x.Common().StaticCallee(); h != nil && p.InModule(h) && len(h.Blocks) <= 6 {
+				for _, ret := range ssax.Returns(h) {
+					if len(ret.Results) != 1 {
+						return false
+					}
+					c2, ok := ret.Results[0].(*ssa.Call)
+					if !ok || c2.Common().StaticCallee() != isAttr {
+						return false
+					}
+				}
+				*calls = append(*calls, x)
+				return true
+			}
 			return false
 		case *ssa.Phi:
 			for _, e := range x.Edges {
 				if !attrLeaves(e, seen, consts, calls) {
+					return false
+				}
+			}
+			return true
+		case *ssa.UnOp:
+			// the attribute kind kept in a field of a local struct: every value stored into that field
+			fa, ok := x.X.(*ssa.FieldAddr)
+			if !ok || x.Op != token.MUL {
+				return false
+			}
+			al, ok := fa.X.(*ssa.Alloc)
+			if !ok {
+				return false
+			}
+			vals, ok := localFieldStores(al, fa.Field)
+			if !ok || len(vals) == 0 {
+				return false
+			}
+			for _, sv := range vals {
+				if !attrLeaves(sv, seen, consts, calls) {
 					return false
 				}
 			}
@@ -684,10 +718,30 @@ func quotedValueRules(p *core.Program, a *Anchors, g *stateGraph, r *core.Result
 	if vq != nil {
 		posField := a.Fields["xss.state.pos"]
 		var search ssa.Instruction
-		for _, ci := range ssax.Calls(vq) {
-			if f := ci.Common().StaticCallee(); f != nil && f.String() == "strings.IndexByte" {
-				search = ci
-				break
+		// (directly, or through a thin helper such as indexFrom(s, pos, ch) / h.find(ch))
+		var searches func(f *ssa.Function, depth int) bool
+		searches = func(f *ssa.Function, depth int) bool {
+			if f == nil {
+				return false
+			}
+			if f.String() == "strings.IndexByte" || f.String() == "strings.Index" {
+				return true
+			}
+			if depth >= 2 || !p.InModule(f) || len(f.Blocks) > 12 || g.Nodes[f] != nil {
+				return false
+			}
+			for _, ci := range ssax.Calls(f) {
+				if searches(ci.Common().StaticCallee(), depth+1) {
+					return true
+				}
+			}
+			return false
+		}
+		for _, b := range vq.DomPreorder() {
+			for _, ins := range b.Instrs {
+				if ci, ok := ins.(ssa.CallInstruction); ok && search == nil && searches(ci.Common().StaticCallee(), 0) {
+					search = ci
+				}
 			}
 		}
 		if search == nil {
@@ -754,4 +808,50 @@ func apiStringParam(root *ssa.Function) *ssa.Parameter {
 		}
 	}
 	return nil
+}
+
+// localFieldStores: every value stored into field f of the local struct al — by a field
+// store, or as part of a whole-struct store of a composite literal built in a temporary.
+func localFieldStores(al *ssa.Alloc, f int) ([]ssa.Value, bool) {
+	var out []ssa.Value
+	if al.Referrers() == nil {
+		return nil, false
+	}
+	fieldStores := func(base *ssa.Alloc) []ssa.Value {
+		var vs []ssa.Value
+		for _, ref := range *base.Referrers() {
+			fa, ok := ref.(*ssa.FieldAddr)
+			if !ok || fa.Field != f || fa.Referrers() == nil {
+				continue
+			}
+			for _, r2 := range *fa.Referrers() {
+				if st, ok := r2.(*ssa.Store); ok && st.Addr == ssa.Value(fa) {
+					vs = append(vs, st.Val)
+				}
+			}
+		}
+		return vs
+	}
+	out = append(out, fieldStores(al)...)
+	for _, ref := range *al.Referrers() {
+		st, ok := ref.(*ssa.Store)
+		if !ok || st.Addr != ssa.Value(al) {
+			continue
+		}
+		// scan = T{…}: the literal is built in a temporary and copied
+		ld, ok := st.Val.(*ssa.UnOp)
+		if !ok {
+			return nil, false
+		}
+		tmp, ok := ld.X.(*ssa.Alloc)
+		if !ok || tmp.Referrers() == nil {
+			return nil, false
+		}
+		vs := fieldStores(tmp)
+		if len(vs) == 0 {
+			return nil, false // the field keeps its zero value: not modelled
+		}
+		out = append(out, vs...)
+	}
+	return out, true
 }
